@@ -134,7 +134,12 @@ func (ex *Exec) tryMerge(fr *frame, instr *ssa.If, cond *Term) bool {
 		return false
 	}
 	budget := mergeBudget
+	// values already defined before the merge must not be redefined inside a
+	// side (that would be a loop iteration whose header phis are live after
+	// the join without passing through a phi of the join)
+	ex.mergeBase = fr.env
 	join, vals, last, ok := ex.mergeIf(fr, fr.block, cond, &budget)
+	ex.mergeBase = nil
 	if !ok {
 		return false
 	}
@@ -231,7 +236,7 @@ func (ex *Exec) runSide(fr *frame, start, prev, join *ssa.BasicBlock, phis []*ss
 				tmp[i] = fr.get(p.Edges[pi])
 			}
 			for i, p := range cphis {
-				fr.env[p] = tmp[i]
+				ex.sideSet(fr, p, tmp[i])
 			}
 		}
 		phisDone = false
@@ -263,7 +268,7 @@ func (ex *Exec) runSide(fr *frame, start, prev, join *ssa.BasicBlock, phis []*ss
 					return nvals, nlast, true
 				}
 				for i, p := range joinPhis(nj) {
-					fr.env[p] = nvals[i]
+					ex.sideSet(fr, p, nvals[i])
 				}
 				next = nj
 				phisDone = true
@@ -355,19 +360,19 @@ func (ex *Exec) pureInstr(fr *frame, in ssa.Instruction) bool {
 				return false
 			}
 		}
-		fr.env[in] = ex.binop(in.Op, in.X.Type(), x, y)
+		ex.sideSet(fr, in, ex.binop(in.Op, in.X.Type(), x, y))
 		return true
 	case *ssa.UnOp:
 		switch in.Op {
 		case token.NOT, token.SUB, token.XOR:
-			fr.env[in] = ex.unop(in, fr.get(in.X))
+			ex.sideSet(fr, in, ex.unop(in, fr.get(in.X)))
 			return true
 		case token.MUL:
 			p, ok := fr.get(in.X).(*Value)
 			if !ok || p == nil {
 				return false
 			}
-			fr.env[in] = load(p)
+			ex.sideSet(fr, in, load(p))
 			return true
 		}
 		return false
@@ -379,23 +384,23 @@ func (ex *Exec) pureInstr(fr *frame, in ssa.Instruction) bool {
 		if _, _, isInt := intWidth(in.Type()); !isInt {
 			return false
 		}
-		fr.env[in] = ex.conv(in.Type(), in.X.Type(), x)
+		ex.sideSet(fr, in, ex.conv(in.Type(), in.X.Type(), x))
 		return true
 	case *ssa.ChangeType:
-		fr.env[in] = fr.get(in.X)
+		ex.sideSet(fr, in, fr.get(in.X))
 		return true
 	case *ssa.Extract:
-		fr.env[in] = fr.get(in.Tuple).(Tuple)[in.Index]
+		ex.sideSet(fr, in, fr.get(in.Tuple).(Tuple)[in.Index])
 		return true
 	case *ssa.FieldAddr:
 		p, ok := fr.get(in.X).(*Value)
 		if !ok || p == nil {
 			return false
 		}
-		fr.env[in] = &(*p).(Struct)[in.Field]
+		ex.sideSet(fr, in, &(*p).(Struct)[in.Field])
 		return true
 	case *ssa.Field:
-		fr.env[in] = copyVal(fr.get(in.X).(Struct)[in.Field])
+		ex.sideSet(fr, in, copyVal(fr.get(in.X).(Struct)[in.Field]))
 		return true
 	case *ssa.IndexAddr:
 		idx, ok := fr.get(in.Index).(Int)
@@ -407,7 +412,7 @@ func (ex *Exec) pureInstr(fr *frame, in ssa.Instruction) bool {
 			if idx.C >= uint64(len(x)) {
 				return false
 			}
-			fr.env[in] = &x[idx.C]
+			ex.sideSet(fr, in, &x[idx.C])
 			return true
 		case *Value:
 			if x == nil {
@@ -417,7 +422,7 @@ func (ex *Exec) pureInstr(fr *frame, in ssa.Instruction) bool {
 			if idx.C >= uint64(len(a)) {
 				return false
 			}
-			fr.env[in] = &a[idx.C]
+			ex.sideSet(fr, in, &a[idx.C])
 			return true
 		}
 		return false
@@ -431,7 +436,7 @@ func (ex *Exec) pureInstr(fr *frame, in ssa.Instruction) bool {
 			for _, a := range in.Call.Args {
 				args = append(args, fr.get(a))
 			}
-			fr.env[in] = ext(ex, fr, fn, args)
+			ex.sideSet(fr, in, ext(ex, fr, fn, args))
 			return true
 		}
 		if b, ok := in.Call.Value.(*ssa.Builtin); ok && in.Call.Method == nil {
@@ -441,7 +446,7 @@ func (ex *Exec) pureInstr(fr *frame, in ssa.Instruction) bool {
 				if _, isChan := a.(*Chan); isChan {
 					return false
 				}
-				fr.env[in] = ex.callBuiltin(fr, b, []Value{a})
+				ex.sideSet(fr, in, ex.callBuiltin(fr, b, []Value{a}))
 				return true
 			case "min", "max":
 				var args []Value
@@ -452,16 +457,25 @@ func (ex *Exec) pureInstr(fr *frame, in ssa.Instruction) bool {
 					}
 					args = append(args, v)
 				}
-				fr.env[in] = ex.callBuiltin(fr, b, args)
+				ex.sideSet(fr, in, ex.callBuiltin(fr, b, args))
 				return true
 			}
 		}
 		return false
 	case *ssa.MakeInterface:
-		fr.env[in] = Iface{T: in.X.Type(), V: copyVal(fr.get(in.X))}
+		ex.sideSet(fr, in, Iface{T: in.X.Type(), V: copyVal(fr.get(in.X))})
 		return true
 	}
 	return false
 }
 
 var _ = types.Typ
+
+func (ex *Exec) sideSet(fr *frame, v ssa.Value, val Value) {
+	if ex.mergeBase != nil {
+		if _, dup := ex.mergeBase[v]; dup {
+			panic(mergeAbort{})
+		}
+	}
+	fr.env[v] = val
+}
